@@ -13,8 +13,8 @@ def parseList (s : String) : Option (List Nat) :=
 
 def parseRec (ws : List String) : Option Rec := do
   let ts ← kvNat ws "ts"
-  let dur ← kvNat ws "dur"
-  let tot ← kvNat ws "tot"
+  let dur ← kvInt ws "dur"
+  let tot ← kvInt ws "tot"
   let st ← kvNat ws "st"
   let m ← kv ws "m"
   let u ← kv ws "u"
